@@ -1,5 +1,5 @@
 import sys, random
-sys.path.insert(0,'/verif')
+import os; sys.path.insert(0, os.path.dirname(os.path.dirname(os.path.abspath(__file__))))
 from vlib import core, engines, plans
 fam=getattr(plans, sys.argv[1]); n=int(sys.argv[2]); frames=int(sys.argv[3]); props=set(sys.argv[4].split(','))
 res=core.Result("T","quick",int(sys.argv[5]) if len(sys.argv)>5 else 1)
